@@ -3,7 +3,7 @@
 P="$1"; shift
 cd /repo || exit 2
 git diff --quiet || { echo "/repo dirty"; exit 2; }
-git apply --check "$P" 2>/dev/null || { echo "PATCH DOES NOT APPLY CLEANLY: trying 3way"; git apply --3way "$P" || { git checkout -- .; exit 3; }; git reset -q; }
+git apply --check "$P" 2>/dev/null || { echo "PATCH DOES NOT APPLY CLEANLY: trying 3way"; git apply --3way "$P" || { git reset -q --hard HEAD; echo "CONFLICT - needs manual port"; exit 3; }; git reset -q; }
 git apply "$P" 2>/dev/null
 git diff --stat | tail -1
 for id in "$@"; do
